@@ -18,7 +18,32 @@ U3_FNS_PP = ["packet", "packet_mut", "tid", "set_tid", "flags", "set_flags", "dn
 U3_FNS_DS = ["is_response", "set_response", "qdcount", "set_qdcount", "ancount", "set_ancount",
              "nscount", "set_nscount", "arcount", "set_arcount"]
 
+HEAD2 = [("raw", "use std::mem;\n")] + COMMON_HEAD + [
+    ("file", "prelude/std_specs.rs"),
+    ("file", "spec/wire.rs"),
+]
+
 UNITS = {
+    "U1": {
+        "title": "validator (C01, C02, C18, parse part of C04)",
+        "flags": [], "rlimit": 60,
+        "contracts": ["contracts/U3.contract:dns_sector.rs::DNSSector::(is_response|qdcount|ancount|nscount|arcount)$", "contracts/U1.contract"],
+        "parts": HEAD2 + [
+            ("struct", "parsed_packet.rs", "ParsedPacket"),
+            ("struct", "dns_sector.rs", "DNSSector"),
+            ("struct", "compress.rs", "Compress"),
+            ("file", "spec/ds.rs"),
+            ("impl", "compress.rs", "Compress", ["check_compressed_name"]),
+            ("impl", "dns_sector.rs", "DNSSector", [
+                "into_packet", "is_response", "qdcount", "ancount", "nscount", "arcount",
+                "remaining_len", "ensure_remaining_len", "set_offset", "increment_offset", "u8_load", "be16_load", "be32_load",
+                "check_compressed_name", "skip_name", "rr_type", "rr_class", "rr_ttl", "rr_rdlen", "ensure_in_class", "new", "parse",
+                "parse_question", "parse_rr", "edns_remaining_len", "edns_ensure_remaining_len", "edns_increment_offset",
+                "edns_be16_load", "edns_be32_load", "edns_rr_code", "edns_rr_rdlen", "edns_skip_rr", "opt_rr_max_payload",
+                "opt_rr_ext_rcode", "opt_rr_edns_version", "opt_rr_edns_ext_flags", "opt_rr_rdlen", "parse_opt", "check_uncompressed_name"]),
+            ("file", "spec/linear.rs"),
+        ],
+    },
     "U3": {
         "title": "header bits (C12, header part of C04)",
         "flags": [],
